@@ -83,6 +83,85 @@ def window_orderby_bare(win_tree):
     raise Untranslatable("WindowSpec.orderBy: cannot tell how bare keys are ordered")
 
 
+def _strip_doc_and_comments(body):
+    return [st for st in body if not (isinstance(st, ast.Expr) and isinstance(st.value, ast.Constant))]
+
+
+def spec_building(win_tree):
+    """What partitionBy / orderBy do to the component they set: 'replace' (Spark) or 'append', fail-closed.
+    Both must (1) start from `window_spec = self.copy()` (so the other components and the receiver are kept), (2) write
+    exactly one component of window_spec.expression, (3) return window_spec."""
+    out = {}
+    for m, comp in (("partitionBy", "partition_by"), ("orderBy", "order")):
+        f = py2v.find_method(win_tree, "WindowSpec", m)
+        body = _strip_doc_and_comments(f.body)
+        # the statements that compute `cols` / `expressions` (imports, flatten, ensure_col, Ordered wrapping) are the prefix
+        idx = [i for i, st in enumerate(body) if isinstance(st, ast.Assign) and dotted(st.targets[0]) == "window_spec"]
+        if len(idx) != 1:
+            raise Untranslatable(f"WindowSpec.{m}: `window_spec = ...` not found exactly once")
+        i = idx[0]
+        cp = body[i].value
+        if not (isinstance(cp, ast.Call) and dotted(cp.func) == "self.copy" and not cp.args and not cp.keywords):
+            raise Untranslatable(f"WindowSpec.{m}: window_spec is not self.copy()")
+        for st in body[:i]:
+            # prefix may only bind local names (cols, expressions) or import
+            if isinstance(st, (ast.Import, ast.ImportFrom)):
+                continue
+            if isinstance(st, ast.Assign) and all(isinstance(t_, ast.Name) and t_.id in ("cols", "expressions") for t_ in st.targets):
+                if any(isinstance(n, ast.Attribute) and dotted(n) and dotted(n).startswith("self.") for n in ast.walk(st.value)):
+                    raise Untranslatable(f"WindowSpec.{m}: the new keys depend on the receiver")
+                continue
+            raise Untranslatable(f"WindowSpec.{m}: unexpected statement before the copy: {ast.unparse(st)[:60]}")
+        tail = body[i + 1:]
+        if not tail or not (isinstance(tail[-1], ast.Return) and dotted(tail[-1].value) == "window_spec"):
+            raise Untranslatable(f"WindowSpec.{m}: does not return window_spec")
+        mid = tail[:-1]
+        src = [ast.unparse(st) for st in mid]
+        if comp == "partition_by":
+            if src == ["window_spec.expression.set('partition_by', expressions)"]:
+                out[m] = "replace"
+            elif src == ["partition_by_expressions = window_spec.expression.args.get('partition_by', [])",
+                         "partition_by_expressions.extend(expressions)",
+                         "window_spec.expression.set('partition_by', partition_by_expressions)"]:
+                out[m] = "append"
+            else:
+                raise Untranslatable(f"WindowSpec.{m}: unrecognised way of setting the partitioning: {src}")
+        else:
+            if src == ["window_spec.expression.set('order', exp.Order(expressions=expressions))"]:
+                out[m] = "replace"
+            elif src == ["if window_spec.expression.args.get('order') is None:\n    window_spec.expression.set('order', exp.Order(expressions=[]))",
+                         "order_by = window_spec.expression.args['order'].expressions",
+                         "order_by.extend(expressions)",
+                         "window_spec.expression.args['order'].set('expressions', order_by)"]:
+                out[m] = "append"
+            else:
+                raise Untranslatable(f"WindowSpec.{m}: unrecognised way of setting the ordering: {src}")
+    # frames: copy, compute all five spec fields, merge with the new fields winning, return
+    for m in ("rowsBetween", "rangeBetween"):
+        f = py2v.find_method(win_tree, "WindowSpec", m)
+        src = [ast.unparse(st) for st in _strip_doc_and_comments(f.body)]
+        if len(src) != 5 or src[0] != "window_spec = self.copy()" or src[1] != "spec = self._calc_start_end(start, end)" \
+                or not src[2].startswith("spec['kind'] = ") or src[4] != "return window_spec" or src[3] != \
+                "window_spec.expression.set('spec', exp.WindowSpec(**{**window_spec.expression.args.get('spec', exp.WindowSpec()).args, **spec}))":
+            raise Untranslatable(f"WindowSpec.{m}: body shape changed: {src}")
+    # the receiver of the class-level entry points is a fresh, empty spec
+    wcls = py2v.find_class(win_tree, "Window")
+    for m, call in (("partitionBy", "WindowSpec().partitionBy(*cols)"), ("orderBy", "WindowSpec().orderBy(*cols)"),
+                    ("rowsBetween", "WindowSpec().rowsBetween(start, end)"), ("rangeBetween", "WindowSpec().rangeBetween(start, end)")):
+        fm = [st for st in wcls.body if isinstance(st, ast.FunctionDef) and st.name == m]
+        if len(fm) != 1:
+            raise Untranslatable(f"Window.{m} not found")
+        b = _strip_doc_and_comments(fm[0].body)
+        if len(b) != 1 or not isinstance(b[0], ast.Return) or ast.unparse(b[0].value) != call:
+            raise Untranslatable(f"Window.{m}: is not `return {call}`")
+    # copy() is a deep copy of the expression
+    cp = py2v.find_method(win_tree, "WindowSpec", "copy")
+    b = _strip_doc_and_comments(cp.body)
+    if len(b) != 1 or ast.unparse(b[0]) != "return WindowSpec(self.expression.copy())":
+        raise Untranslatable("WindowSpec.copy: is not `return WindowSpec(self.expression.copy())`")
+    return out
+
+
 def frame_kinds(win_tree):
     out = {}
     for m in ("rowsBetween", "rangeBetween"):
@@ -145,6 +224,7 @@ def generate(repo: str):
     flags = ordering_flags(col_tree)
     kinds = frame_kinds(win_tree)
     bare = window_orderby_bare(win_tree)
+    building = spec_building(win_tree)
     L = ["(* GENERATED from /repo on every run by translate/c08_facts.py -- do not edit *)",
          "From SF Require Import C08.Window.", "Open Scope Z_scope."]
     for k, v in consts.items():
@@ -158,7 +238,11 @@ def generate(repo: str):
     L.append(f'Definition rows_kind : string := "{kinds["rowsBetween"]}".')
     L.append(f'Definition range_kind : string := "{kinds["rangeBetween"]}".')
     L.append(f"Definition window_bare_key_is_spark_default : bool := {'true' if bare == 'spark_default' else 'false'}.")
+    L.append(f"Definition part_replaces : bool := {'true' if building['partitionBy'] == 'replace' else 'false'}.")
+    L.append(f"Definition order_replaces : bool := {'true' if building['orderBy'] == 'replace' else 'false'}.")
     facts = [
+        {"name": "spec building", "from": "window.py: WindowSpec.partitionBy/orderBy/rowsBetween/rangeBetween/copy, Window.*",
+         "value": building},
         {"name": "Window constants", "from": "window.py: class Window", "value": {k: v for k, v in consts.items() if "." not in k}},
         {"name": "get_value_and_side", "from": "window.py: WindowSpec._calc_start_end", "hash": py2v.src_hash(gvs, win_src), "text": term},
         {"name": "order_flags", "from": "column.py: asc/desc/...", "value": {m: list(v) for m, v in flags.items()}},
